@@ -53,9 +53,10 @@ def keycols(cfg):
 
 
 def gen_key(rng, cfg):
+    # key values include 0: a falsy key component is a key like any other
     if cfg['keyshape'] == 'composite':
-        return [rng.randint(1, 2), rng.randint(1, 2)]
-    return [rng.randint(1, 4)]
+        return [rng.randint(0, 2), rng.randint(0, 2)]
+    return [rng.randint(0, 4)]
 
 
 def fill_chain(rows):
